@@ -1,4 +1,5 @@
 import Desert.Lemmas.RoundTripFull
+import Desert.Lemmas.Leaves
 import Desert.Lemmas.Misc
 import Desert.Lemmas.TotalDec
 /-!
@@ -108,6 +109,16 @@ theorem decode_never_panics_frame (env : Env) (henv : envDecOKb env = true) (ty 
   rw [h] at this
   exact this
 
+/-- the chrono / big-number leaves (DESIGN 12.8): the reader of every wire description returns a value or an error
+on every byte string — the panic-freedom of these codecs' *layout* part; what the library constructors do with the
+components is measured by family `leaves`, not modelled -/
+theorem leaf_descriptions_never_panic (d : Ty) (hd : d ∈ leafDescriptions) (b : Bytes) :
+    (∀ w, decodeTop [] d b ≠ .panic w) ∧ (∀ w, decodeAbs [] d b ≠ .panic w) := by
+  have henv : envDecOKb [] = true := by decide
+  have hty : tyOKb [] d = true := by
+    simp only [leafDescriptions, List.mem_cons, List.mem_nil_iff, or_false] at hd
+    rcases hd with rfl | rfl | rfl | rfl | rfl | rfl | rfl | rfl | rfl <;> decide
+  exact decode_never_panics [] henv d hty b
 /-- non-vacuity: the repository's evolved `Point` is a decodable environment -/
 example : envDecOKb [("Point", .record ⟨"Point", [⟨"x", .prim (.int 4 true), .plain, some (.int 0)⟩,
     ⟨"y", .prim (.int 4 true), .plain, none⟩, ⟨"_cached_str", .option (.prim .string), .transient, some .none⟩],
